@@ -3,7 +3,7 @@
    + fix_missing_locations for the added nodes; strip removes exactly one import at the insertion
    point, the FIRST decorator of every ClassDef and the LAST decorator of every FunctionDef).
    gen/HookConsts.v (decorator template, placement calls, visited classes) is regenerated from source. *)
-From JT Require Import model.HookAst gen.HookConsts proofs.HookFacts.
+From JT Require Import model.HookAst gen.HookConsts proofs.HookFacts proofs.HookCompleteFacts.
 Open Scope string_scope.
 
 (* removing the additions gives back the original tree: every other node, every location, every scalar *)
@@ -40,3 +40,24 @@ Theorem C10_source_shape :
   transformer_overrides_generic_visit = false.
 Proof. repeat split; reflexivity. Qed.
 Print Assumptions C10_source_shape.
+
+(* completeness: in the transformed tree EVERY ClassDef carries the decorator first and EVERY FunctionDef carries it last, at any
+   nesting depth (methods, nested defs, defs inside decorators or default values), relocated onto the node's own position *)
+Theorem C10_every_def_and_class_decorated : forall dec, closed dec = true -> forall t, all_nodes (decorated dec) (xform dec t) = true.
+Proof. exact every_def_and_class_decorated. Qed.
+Print Assumptions C10_every_def_and_class_decorated.
+
+(* ... in particular with the decorator the source builds, for every typechecker hash *)
+Theorem C10_every_def_and_class_decorated_with_the_template : forall h t,
+  all_nodes (decorated (subst_hash h dec_template)) (xform (subst_hash h dec_template) t) = true.
+Proof. intros h t. apply every_def_and_class_decorated. vm_compute. reflexivity. Qed.
+Print Assumptions C10_every_def_and_class_decorated_with_the_template.
+
+(* nothing of the module is lost or merged: different modules transform to different trees; class and position of a node are kept *)
+Theorem C10_transformation_is_injective : forall dec, closed dec = true -> forall t1 t2, xform dec t1 = xform dec t2 -> t1 = t2.
+Proof. exact xform_injective. Qed.
+Print Assumptions C10_transformation_is_injective.
+
+Theorem C10_node_class_and_position_kept : forall dec t, cls_of (xform dec t) = cls_of t /\ loc_of (xform dec t) = loc_of t.
+Proof. exact root_kept. Qed.
+Print Assumptions C10_node_class_and_position_kept.
